@@ -146,6 +146,70 @@ c_status_t UMInitializeToEmptyMessage(UMessage * msg, uint8 * buf, uint32 numByt
    else return CB_ERROR;
 }
 
+/** Returns UTrue iff the field-records in the (numBytes)-byte flattened-Message at (buf) are self-consistent,
+  * ie every name, data-area and data-item lies within its enclosing area, so that the read-functions can
+  * trust the lengths they find.  (Sub-Messages get checked when they are themselves initialized, in UMFindMessage())
+  */
+static UBool AreFieldRecordsWellFormed(const uint8 * buf, uint32 numBytes)
+{
+   const uint8 * p   = buf+MESSAGE_HEADER_SIZE;
+   const uint8 * end = buf+numBytes;
+   while(p < end)
+   {
+      uint32 nameLen, typeCode, dataLen;
+      const uint8 * d;
+      const uint8 * dEnd;
+
+      if (((uint32)(end-p)) < (3*sizeof(uint32))) return UFalse;  /* name-length, type-code, data-length */
+      nameLen = UMReadInt32(p); p += sizeof(uint32);
+      if ((nameLen == 0)||(nameLen > ((uint32)(end-p)))||((((uint32)(end-p))-nameLen) < (2*sizeof(uint32)))||(p[nameLen-1] != '\0')) return UFalse;
+      p += nameLen;
+      typeCode = UMReadInt32(p); p += sizeof(uint32);
+      dataLen  = UMReadInt32(p); p += sizeof(uint32);
+      if (dataLen > ((uint32)(end-p))) return UFalse;
+
+      d    = p;
+      dEnd = p+dataLen;
+      switch(typeCode)
+      {
+         case B_BOOL_TYPE:  case B_DOUBLE_TYPE: case B_FLOAT_TYPE: case B_INT64_TYPE:   case B_INT32_TYPE:
+         case B_INT16_TYPE: case B_INT8_TYPE:   case B_POINT_TYPE: case B_POINTER_TYPE: case B_RECT_TYPE:
+            /* fixed-size items:  the item-count is computed from the data-length, so there is nothing more to check */
+         break;
+
+         case B_MESSAGE_TYPE:
+            while(d < dEnd)
+            {
+               uint32 msgSize;
+               if (((uint32)(dEnd-d)) < sizeof(uint32)) return UFalse;
+               msgSize = UMReadInt32(d); d += sizeof(uint32);
+               if ((msgSize < MESSAGE_HEADER_SIZE)||(msgSize > ((uint32)(dEnd-d)))) return UFalse;
+               d += msgSize;
+            }
+         break;
+
+         default:
+            if (dataLen >= sizeof(uint32))
+            {
+               uint32 i;
+               const uint32 numItems = UMReadInt32(d); d += sizeof(uint32);
+               for (i=0; i<numItems; i++)
+               {
+                  uint32 itemSize;
+                  if (((uint32)(dEnd-d)) < sizeof(uint32)) return UFalse;
+                  itemSize = UMReadInt32(d); d += sizeof(uint32);
+                  if (itemSize > ((uint32)(dEnd-d))) return UFalse;
+                  if ((typeCode == B_STRING_TYPE)&&((itemSize == 0)||(d[itemSize-1] != '\0'))) return UFalse;
+                  d += itemSize;
+               }
+            }
+         break;
+      }
+      p = dEnd;
+   }
+   return UTrue;
+}
+
 c_status_t UMInitializeWithExistingData(UMessage * msg, const uint8 * buf, uint32 numBytesInBuf)
 {
    msg->_buffer          = (uint8 *) buf;
@@ -160,9 +224,10 @@ c_status_t UMInitializeWithExistingData(UMessage * msg, const uint8 * buf, uint3
    if (numBytesInBuf >= MESSAGE_HEADER_SIZE)
    {
       const uint32 what = UMReadInt32AtOffset(msg, 0);
-      if ((what >= OLDEST_SUPPORTED_PROTOCOL_VERSION)&&(what <= CURRENT_PROTOCOL_VERSION)) return CB_NO_ERROR;
+      if ((what >= OLDEST_SUPPORTED_PROTOCOL_VERSION)&&(what <= CURRENT_PROTOCOL_VERSION)&&(AreFieldRecordsWellFormed(buf, numBytesInBuf))) return CB_NO_ERROR;
    }
 
+   UMInitializeToInvalid(msg);  /* so that a caller who ignores our return value can't read through a bad buffer */
    return CB_ERROR;
 }
 
@@ -962,6 +1027,7 @@ c_status_t UMFindMessage(const UMessage * msg, const char * fieldName, uint32 id
       pointerToMsg += msgSize+sizeof(uint32);  /* move past the msg and the next msg's msg-length-field */
       idx--;
    }
+   if (pointerToMsg > afterEndOfField) return CB_ERROR;  /* there is no (idx)'th Message in this field */
    return UMInitializeWithExistingData(retMessage, pointerToMsg, UMReadInt32(pointerToMsg-sizeof(uint32)));
 }
 
